@@ -138,6 +138,20 @@ def merge_results(prop, cfg, outdir, shard_runs, known):
     ev = {"evaluations": 0, "classes": {}, "samples": [], "excluded": {}, "violations": {}, "hashes": set(),
           "notes": {}, "exhaustive": [], "per_job": {}}
     inconclusive = []
+    # violations written by watchdogs that had to kill their own process (e.g. a spinning goroutine freezing a bubble)
+    watchdog = False
+    for f in sorted(glob.glob(os.path.join(outdir, "fuzzviol-*.json"))):
+        try:
+            v = json.load(open(f))
+        except Exception:
+            continue
+        watchdog = True
+        v = {"sig": v["sig"], "detail": v["detail"], "case": v.get("case"), "count": 1, "test": "watchdog"}
+        kind = "excluded" if sig_open(v["sig"], known) else "violations"
+        if v["sig"] in ev[kind]:
+            ev[kind][v["sig"]]["count"] += 1
+        else:
+            ev[kind][v["sig"]] = v
     for r in shard_runs:
         path = os.path.join(outdir, "result-%s-%d.json" % (r["job"], r["shard"]))
         res = None
@@ -177,6 +191,8 @@ def merge_results(prop, cfg, outdir, shard_runs, known):
             continue
         if res is not None and (res.get("violations") or []):
             continue  # failure explained by recorded violations
+        if r["rc"] == 7 and watchdog:
+            continue  # the watchdog reported and ended the process
         text = r["out"]
         if "panic: test timed out" in text or r["rc"] == -9:
             if cfg.get("hang_is_observation") and LIME_FRAME.search(text):
